@@ -210,6 +210,16 @@ func runC06(r *core.Run) {
 	r.Coverage["operator_table_rows"] = len(rows)
 	r.Coverage["exhaustive"] = true
 
+	// ---- nested expressions: trees built and evaluated by the specification (Expr.tla) ----
+	mx := r.MustHold(core.TLCOpts{Module: "Expr", Cfg: "ExprMC.cfg", Workers: 4, Timeout: 10 * time.Minute})
+	r.Coverage["states"] = mc.Distinct + mx.Distinct
+	r.Coverage["transitions"] = mc.Generated + mx.Generated
+	nex := 400
+	if r.Thorough {
+		nex = 8000
+	}
+	checkExprValues(r, exprCases(r, nex, r.Seed*31))
+
 	// ---- operands outside the catalog: law-only validation by TLC ----
 	n := 1500
 	if r.Thorough {
